@@ -6,6 +6,7 @@ package maph
 import (
 	"fmt"
 	"strings"
+	"verifh/internal/deepdump"
 
 	"github.com/acquirecloud/golibs/container/iterable"
 	"github.com/acquirecloud/golibs/zverif/vsync"
@@ -279,6 +280,11 @@ func (s *Sys) Key() string {
 	}
 	// the free list is implementation state too: a recycled node may carry stale fields
 	b.WriteString("#pool:" + strings.Join(iterable.VerifPoolDump(s.m), ","))
+	// ... and so is everything else the map and its open iterators consist of, whatever fields they have (deepdump)
+	b.WriteString("#impl:" + deepdump.Dump(struct {
+		M   any
+		Its any
+	}{s.m, s.its}, deepdump.Options{}))
 	b.WriteByte('#')
 	// model: live entries and, per iterator, how many live entries precede its cursor
 	for _, e := range s.log {
